@@ -186,3 +186,6 @@ TABLES = [
       "proportion": tr.proportion, "S": tr.S, "standardize": tr.Scale, "T": tr.T, "center": tr.Center, "scale": tr.Scale,
       "bs": tr.BSpline, "poly": tr.Polynomial}),
 ]
+
+
+ASSUMPTIONS = ['np.mean / np.std / np.min / np.max are uninterpreted functions of the data vector (floats as reals)', "BSpline._initialize is ASSUMED (not verified): only its frame and 'params_set afterwards' are used", 'scipy.interpolate.splev returns a fresh vector of the length of x (values unconstrained)', "Series: x.unique().tolist() / sorted() modelled through an uninterpreted order 'le' on values"]
